@@ -9,20 +9,27 @@
      |enc b| < 2^32 for |b| <= 2^31.
    [toy_enc]/[toy_dec] (Proofs/XerialProofs.v) satisfy them (non-vacuity, end of file). *)
 From Coq Require Import List NArith Bool.
-From KV Require Import Lib.Bits Model.Xerial Model.CodecPool Spec.Xerial Proofs.XerialProofs Proofs.XerialPoolProofs.
+From KV Require Import Lib.Bits Model.Xerial Model.CodecPool Spec.Xerial Spec.SnappyBlock
+  Proofs.XerialProofs Proofs.XerialPoolProofs Proofs.XerialSnappyProofs.
 Import ListNotations.
 Local Open Scope N_scope.
 
-(* ---- C16_xerial_roundtrip, framed.  For every pooled writer object [pw] (None = the pool was
-   empty) whose input-buffer capacity is at most 2^31, every pooled reader object [pr], every
-   split [bs] of the payload into Write calls and every sequence [ks] of Read buffer sizes:
-   all Writes and Close succeed; the bytes emitted are magic ++ versions ++ concat (len4 (enc
-   block_i) ++ enc block_i) for non-empty blocks with concat block_i = payload (nothing at all
-   for an empty payload); that is what the reference encoder of Spec/Xerial.v produces for
-   these blocks and its decoder returns the payload; the Reads on that stream are exactly those
-   of a block-buffered reader (ref_reads), so what they deliver is a prefix of the payload and,
-   with buffers of length >= 1 and more Reads than bytes, all of it followed by io.EOF; the
-   writer goes back to the pool with input[:0] and nbytes = 0. *)
+(* ---- C16_xerial_roundtrip, framed.  The operations on the writer are any mix [ops] of
+   Write(b) and ReadFrom(r) — r any source that ends with io.EOF: arbitrary chopping of its
+   Reads, (0, nil) Reads, the last bytes returned together with io.EOF or not ([op_good]) —
+   the payload is the concatenation of the bytes offered ([ops_payload]).
+   For every pooled writer object [pw] (None = the pool was empty) whose input-buffer capacity
+   is at most 2^31, every pooled reader object [pr] and every sequence [ks] of Read buffer sizes:
+   all calls and Close succeed and report the full byte counts ([ops_results]); the bytes
+   emitted are magic ++ versions ++ concat (len4 (enc block_i) ++ enc block_i) for non-empty
+   blocks with concat block_i = payload (nothing at all for an empty payload) — so they depend
+   on the mix only through the payload and where blocks are cut; that is what the reference
+   encoder of Spec/Xerial.v produces for these blocks and its decoder returns the payload; the
+   Reads on that stream are exactly those of a block-buffered reader (ref_reads): what they
+   deliver is a prefix of the payload and, with buffers of length >= 1 and more Reads than
+   bytes, all of it followed by io.EOF ([delivered]); after ANY number of successful Reads,
+   WriteTo delivers exactly the rest and returns nil ([copy_delivers]); the writer goes back
+   to the pool with input[:0] and nbytes = 0. *)
 Theorem C16_xerial_roundtrip :
   forall (enc : list N -> list N) (dec : list N -> option (list N)) (declen : list N -> option N),
   (forall b, dec (enc b) = Some b) ->
@@ -30,21 +37,22 @@ Theorem C16_xerial_roundtrip :
   (forall b, enc b <> []) ->
   (forall b, is_xerial_header (take_N 16 (enc b) ++ drop_N (len_N (take_N 16 (enc b))) zeros16) = false) ->
   (forall b, len_N b <= M31 -> len_N (enc b) < M32) ->
-  forall (pw : option xwriter) (pr : option xreader) (bs : list (list N)) (ks : list N),
-  eff_cap (pooled_cap pw) <= M31 ->
+  forall (pw : option xwriter) (pr : option xreader) (ops : list wop) (ks : list N),
+  Forall op_good ops -> eff_cap (pooled_cap pw) <= M31 ->
   exists blocks released,
-    xw_stream enc pw true None (map OWrite bs)
-    = (released, stream_of (map enc blocks), map (fun b => WOk (len_N b)) bs, true) /\
-    concat blocks = concat bs /\ Forall (fun b => b <> []) blocks /\
-    (concat bs <> [] ->
+    xw_stream enc pw true None ops
+    = (released, stream_of (map enc blocks), ops_results ops, true) /\
+    concat blocks = ops_payload ops /\ Forall (fun b => b <> []) blocks /\
+    (ops_payload ops <> [] ->
        stream_of (map enc blocks) = ref_encode enc blocks /\
-       ref_decode dec (stream_of (map enc blocks)) = Some (concat bs)) /\
-    (concat bs = [] -> stream_of (map enc blocks) = []) /\
+       ref_decode dec (stream_of (map enc blocks)) = Some (ops_payload ops)) /\
+    (ops_payload ops = [] -> stream_of (map enc blocks) = []) /\
     snd (xr_reads dec declen (xr_open pr (stream_of (map enc blocks))) ks)
     = map of_ref (ref_reads [] blocks ks) /\
-    delivered blocks (concat bs) ks /\
+    delivered blocks (ops_payload ops) ks /\
+    copy_delivers dec declen (xr_open pr (stream_of (map enc blocks))) (ops_payload ops) ks /\
     w_input released = [] /\ w_nbytes released = 0.
-Proof. exact roundtrip_framed. Qed.
+Proof. exact roundtrip_framed_ops. Qed.
 Print Assumptions C16_xerial_roundtrip.
 
 (* ---- the same without framing: any capacity; the stream is the single block enc payload *)
@@ -55,18 +63,71 @@ Theorem C16_xerial_roundtrip_unframed :
   (forall b, enc b <> []) ->
   (forall b, is_xerial_header (take_N 16 (enc b) ++ drop_N (len_N (take_N 16 (enc b))) zeros16) = false) ->
   (forall b, len_N b <= M31 -> len_N (enc b) < M32) ->
-  forall (pw : option xwriter) (pr : option xreader) (bs : list (list N)) (ks : list N),
+  forall (pw : option xwriter) (pr : option xreader) (ops : list wop) (ks : list N),
+  Forall op_good ops ->
   exists released,
-    xw_stream enc pw false None (map OWrite bs)
-    = (released, match concat bs with [] => [] | _ :: _ => enc (concat bs) end,
-       map (fun b => WOk (len_N b)) bs, true) /\
+    xw_stream enc pw false None ops
+    = (released, match ops_payload ops with [] => [] | _ :: _ => enc (ops_payload ops) end,
+       ops_results ops, true) /\
     snd (xr_reads dec declen
-           (xr_open pr (match concat bs with [] => [] | _ :: _ => enc (concat bs) end)) ks)
-    = map of_ref (ref_reads [] [concat bs] ks) /\
-    delivered [concat bs] (concat bs) ks /\
+           (xr_open pr (match ops_payload ops with [] => [] | _ :: _ => enc (ops_payload ops) end)) ks)
+    = map of_ref (ref_reads [] [ops_payload ops] ks) /\
+    delivered [ops_payload ops] (ops_payload ops) ks /\
+    copy_delivers dec declen
+      (xr_open pr (match ops_payload ops with [] => [] | _ :: _ => enc (ops_payload ops) end))
+      (ops_payload ops) ks /\
     w_input released = [] /\ w_nbytes released = 0.
-Proof. exact roundtrip_unframed. Qed.
+Proof. exact roundtrip_unframed_ops. Qed.
 Print Assumptions C16_xerial_roundtrip_unframed.
+
+(* what [copy_delivers] says, spelled out (it is a definition of Proofs/XerialProofs.v) *)
+Theorem C16_copy_delivers_meaning : forall dec declen x payload ks,
+  copy_delivers dec declen x payload ks <->
+  (forall x' rs, xr_reads dec declen x ks = (x', rs) -> forallb is_rdata rs = true ->
+   exists x'' rest, xr_write_to dec declen x' = (x'', rest, Some None) /\ rdata rs ++ rest = payload).
+Proof. exact (fun dec declen x payload ks => conj (fun H => H) (fun H => H)). Qed.
+Print Assumptions C16_copy_delivers_meaning.
+
+(* Reads then WriteTo on raw blocks and on reference streams *)
+Theorem C16_unframed_copy :
+  forall (enc : list N -> list N) (dec : list N -> option (list N)) (declen : list N -> option N),
+  (forall b, dec (enc b) = Some b) ->
+  (forall c b, dec c = Some b -> declen c = Some (len_N b)) ->
+  (forall b, enc b <> []) ->
+  (forall b, is_xerial_header (take_N 16 (enc b) ++ drop_N (len_N (take_N 16 (enc b))) zeros16) = false) ->
+  (forall b, len_N b <= M31 -> len_N (enc b) < M32) ->
+  forall (pr : option xreader) (b : list N) (ks : list N),
+  copy_delivers dec declen (xr_open pr (enc b)) b ks.
+Proof. exact raw_block_copy. Qed.
+Print Assumptions C16_unframed_copy.
+
+Theorem C16_reference_streams_copy :
+  forall (enc : list N -> list N) (dec : list N -> option (list N)) (declen : list N -> option N),
+  (forall b, dec (enc b) = Some b) ->
+  (forall c b, dec c = Some b -> declen c = Some (len_N b)) ->
+  (forall b, enc b <> []) ->
+  (forall b, is_xerial_header (take_N 16 (enc b) ++ drop_N (len_N (take_N 16 (enc b))) zeros16) = false) ->
+  (forall b, len_N b <= M31 -> len_N (enc b) < M32) ->
+  forall (pr : option xreader) (blocks : list (list N)) (ks : list N),
+  Forall (fun b => len_N (enc b) < M32) blocks ->
+  copy_delivers dec declen (xr_open pr (ref_encode enc blocks)) (concat blocks) ks.
+Proof. exact reference_stream_copy. Qed.
+Print Assumptions C16_reference_streams_copy.
+
+(* ---- the reference decoder of the snappy BLOCK format (Spec/SnappyBlock.v), the oracle the
+   interoperability clause is checked against in the differential run: a Gallina function
+   (total, deterministic); what it accepts has the announced length; a block that starts with
+   a copy — in particular S2's "repeat" — is rejected *)
+Theorem C16_snappy_strict_length : forall c b,
+  snappy_block_decode c = Some b ->
+  snappy_block_decoded_len c = Some (sb_length b) /\ sb_length b < 4294967296.
+Proof. exact snappy_decode_length. Qed.
+Print Assumptions C16_snappy_strict_length.
+
+Theorem C16_snappy_copy_first_rejected : forall dlen tag rest fuel,
+  tag mod 4 <> 0 -> sb_elements fuel (tag :: rest) [] 0 dlen = None.
+Proof. exact snappy_copy_first_rejected. Qed.
+Print Assumptions C16_snappy_copy_first_rejected.
 
 (* ---- C16_unframed_readable: a raw block is read back as its content ... *)
 Theorem C16_unframed_readable :
@@ -189,15 +250,30 @@ Example C16_laws_satisfiable :
 Proof. exact (conj toy_dec_enc (conj toy_declen_dec (conj toy_nonempty (conj toy_not_magic toy_len32)))). Qed.
 
 (* a dirty pooled writer of capacity 1030 (blocks are cut once fewer than 1024 bytes are free),
-   three Writes, framed: two blocks [1..7] and [8;9], then read back with buffers 4,1,100,... *)
+   a Write, a ReadFrom whose source chops its Reads, has a (0, nil) Read and returns its last
+   bytes together with io.EOF, another Write; framed: two blocks [1..7] and [8;9]; read back
+   with two Reads and then WriteTo *)
 Example C16_example_run :
   let pw := Some {| w_input := [9; 9]; w_cap := 1030; w_nbytes := 77; w_framed := false |} in
-  let '(released, data, rs, ok) := xw_stream toy_enc pw true None [OWrite [1; 2; 3]; OWrite [4; 5; 6; 7]; OWrite [8; 9]] in
+  let src := {| src_data := [4; 5; 6; 7]; src_steps := [1; 0; 2]; src_eof_with_data := true; src_fails := false |} in
+  let '(released, data, rs, ok) := xw_stream toy_enc pw true None [OWrite [1; 2; 3]; OReadFrom src; OWrite [8; 9]] in
   data = xerial_header_bytes ++ [0; 0; 0; 8; 1; 1; 2; 3; 4; 5; 6; 7] ++ [0; 0; 0; 3; 1; 8; 9] /\
   rs = [WOk 3; WOk 4; WOk 2] /\ ok = true /\ released = {| w_input := []; w_cap := 1030; w_nbytes := 0; w_framed := true |} /\
   ref_decode toy_dec data = Some [1; 2; 3; 4; 5; 6; 7; 8; 9] /\
-  snd (xr_reads toy_dec toy_declen
-         (xr_open (Some {| r_src := [5]; r_header := xerial_header_bytes; r_output := [1; 2]; r_offset := 1; r_nbytes := 40 |}) data)
-         [4; 1; 100; 100; 100])
-  = [RData [1; 2; 3; 4]; RData [5]; RData [6; 7]; RData [8; 9]; RErr EEOF].
+  let dirty := Some {| r_src := [5]; r_header := xerial_header_bytes; r_output := [1; 2]; r_offset := 1; r_nbytes := 40 |} in
+  snd (xr_reads toy_dec toy_declen (xr_open dirty data) [4; 1; 100; 100; 100])
+  = [RData [1; 2; 3; 4]; RData [5]; RData [6; 7]; RData [8; 9]; RErr EEOF] /\
+  let '(x', rs2) := xr_reads toy_dec toy_declen (xr_open dirty data) [4; 1] in
+  rs2 = [RData [1; 2; 3; 4]; RData [5]] /\
+  let '(_, rest, st) := xr_write_to toy_dec toy_declen x' in rest = [6; 7; 8; 9] /\ st = Some None.
+Proof. vm_compute. repeat split. Qed.
+
+(* the strict snappy decoder: "abc" as a literal then a 9-byte copy at offset 3; the same with
+   offset 0 (S2's repeat) is not snappy; neither is a cut block *)
+Example C16_snappy_examples :
+  snappy_block_decode [12; 8; 97; 98; 99; 21; 3] = Some [97; 98; 99; 97; 98; 99; 97; 98; 99; 97; 98; 99] /\
+  snappy_block_decode [12; 8; 97; 98; 99; 21; 0] = None /\
+  snappy_block_decode [12; 8; 97; 98; 99; 21] = None /\
+  snappy_block_decode [12; 8; 97; 98; 99] = None /\
+  snappy_block_decode [0] = Some [].
 Proof. vm_compute. repeat split. Qed.
